@@ -1,15 +1,21 @@
 """PIPE — auxiliary check (not one of the 20 properties): the unified pipeline model against the real execute().
-`./check PIPE --tier quick` builds Props/Pipeline.lean, audits its theorems and runs harness/pipeline.py on its own;
+`./check PIPE --tier quick` builds Props/Pipeline.lean and Props/Pipeline3.lean (instants, probability), audits their theorems and runs
+harness/pipeline.py on its own;
 the property checks C06 / C01 / C02 / C12 call the same library."""
 import pipeline
 
 ID = "PIPE"
-LEAN_MODULES = list(pipeline.LEAN_MODULES) + list(pipeline.BODIES_MODULES)
-GEN = list(pipeline.GEN) + list(pipeline.BODIES_GEN)
-THEOREMS = list(pipeline.THEOREMS) + pipeline.bodies_theorems()
+LEAN_MODULES = list(pipeline.LEAN_MODULES) + list(pipeline.BODIES_MODULES) + list(pipeline.LEAN_MODULES3)
+GEN = list(pipeline.GEN) + list(pipeline.BODIES_GEN) + ["ProbTable"]
+THEOREMS = list(pipeline.THEOREMS) + pipeline.bodies_theorems() + list(pipeline.ALL_THEOREMS3)
 RULE = pipeline.RULE
-ASSUMPTIONS = ["instants, random variables, events, plots, quit/rand/seed and astronomically large powers / factorials / ranges are outside the "
-               "unified model: such programs are answered `unmodelled` and skipped (counted in coverage.pipeline)",
+ASSUMPTIONS = ["plots, quit / rand / seed / sample / now / today, instant literals in ISO forms the Instant fragment does not cover, arrays of random "
+               "variables as a displayed result, thresholds / counts beyond 2000 / 1000 / 500 for the looping laws, and astronomically large "
+               "powers / factorials / ranges are outside the unified model: such programs are answered `unmodelled` and skipped (counted in "
+               "coverage.pipeline)",
+               "probabilities are computed by the Prob fragment in exact rational arithmetic on the exact value of float parameters (exp / erf / "
+               "sqrt 2: the C library's on doubles) and delivered in Python's kind; numerals in the output are compared to 1e-9 like C08's own "
+               "correspondence (everything else is compared exactly)",
                "default configuration (empty HOME): precision 6, default currency table"]
 LEVEL_TEXT = "auxiliary: refinement theorems from the unified evaluator to the fragment models + whole-program differential fuzzing"
 LEVEL_NOTE = "not a property of properties.jsonl; strengthens the tie of C01/C02/C03/C04/C06/C12/C14 to the code"
